@@ -6,7 +6,7 @@ MODE = "corpus"
 EXPLANATION = ("Per corpus program: the output of the repository's generator is executed symbolically (with the real EoWriter) and compared by z3 with an independent reading "
                "of the same XML (O-xml: own ElementTree parse with proper xs:boolean, own reference wire images), for all objects within the value bounds. The same expectation is "
                "checked against code generated from five twin trees that spell one boolean attribute's default explicitly.")
-BOUNDS = {"quick": "programs: every class of corpus/core, generated from the core tree and from 5 explicit-default twin trees; strings of length 0 or 1 (any code point 0..0x10FFFF), arrays of 0 or 1 elements, "
+BOUNDS = {"quick": "programs: every class of corpus/core, generated from the core tree and from 5 explicit-default twin trees; strings of length 0 or 1 (any code point 0..0x10FFFF), arrays of 0, 1 or 2 elements, "
                    "integers / enum ordinals over their whole wire range",
           "thorough": "same programs; string lengths {0,1,2,3}, array counts {0,1,2,3}"}
 OUTSIDE = "specifications not in the corpus; longer strings/arrays; objects violating their declaration (C16)"
@@ -41,7 +41,7 @@ def on_generator_failure(run, name, xml_dir, msg):
 
 def jobs(tier):
     types, cls = corpus.classes()
-    cfg = {"lens": [0, 1], "counts": [0, 1]} if tier == "quick" else {"lens": [0, 1, 2, 3], "counts": [0, 1, 2, 3]}
+    cfg = {"lens": [0, 1], "counts": [0, 1, 2]} if tier == "quick" else {"lens": [0, 1, 2, 3], "counts": [0, 1, 2, 3]}
     js = []
     for tree in ["core"] + list(twins.TWINS):
         for c in cls:
